@@ -39,6 +39,7 @@ type GenInput struct {
 	Spec    string `json:"spec"`
 	Config  string `json:"config,omitempty"`
 	Package string `json:"package,omitempty"`
+	Dir     string `json:"dir,omitempty"` // working directory for this generation (the spec path may be relative to it)
 }
 
 // Scenario is one complete, explicit simulated run.
@@ -81,7 +82,7 @@ type Result struct {
 	DupWrites   []string                  `json:"dup_writes,omitempty"`
 	HistErrs    []string                  `json:"hist_errs,omitempty"`
 	Yields      int                       `json:"yields"`
-	Switches    int                       `json:"switches"`  // context switches between template tasks
+	Switches    int                       `json:"switches"`   // context switches between template tasks
 	SchedHash   string                    `json:"sched_hash"` // hash of the merged (fake time, stream) log
 	Streams     int                       `json:"streams"`
 	FakeNS      int64                     `json:"fake_ns"`
@@ -130,6 +131,11 @@ func (f *recFS) WriteFile(name string, content []byte) error {
 // generate performs one generation the way cmd/ogen does (config YAML -> options, SetLocation, Parse,
 // NewGenerator, WriteSource) against a recording file system.
 func generate(in GenInput, fs *recFS) error {
+	if in.Dir != "" {
+		if err := os.Chdir(in.Dir); err != nil {
+			return errors.Wrap(err, "chdir")
+		}
+	}
 	var opts gen.Options
 	opts.Logger = zap.NewNop()
 	if in.Config != "" {
